@@ -23,6 +23,11 @@ class Module:
         self.src = src
         self.tree = ast.parse(src, filename=str(path))
         self.imports = {}  # local name -> dotted target
+        self.relink()
+
+    def relink(self):
+        """(Re)compute parent links and the import table - called again after the tree was normalised."""
+        self.imports = {}
         for node in ast.walk(self.tree):
             for child in ast.iter_child_nodes(node):
                 child._parent = node  # noqa: SLF001
@@ -80,7 +85,7 @@ class ClassInfo:
 
 
 class Repo:
-    def __init__(self, root: pathlib.Path | None = None, extra: bool = True):
+    def __init__(self, root: pathlib.Path | None = None, extra: bool = True, normalise: bool = True):
         self.root = pathlib.Path(root) if root else repo_root()
         self.src_root = self.root / 'src'
         self.modules: dict[str, Module] = {}
@@ -102,6 +107,31 @@ class Repo:
                 if p.is_file():
                     name = '.'.join(pathlib.Path(rel).with_suffix('').parts)
                     self._load(name, p)
+        self.norm_log: list[str] = []
+        self._index()
+        if normalise and not os.environ.get('SA_NO_NORMALISE'):  # debugging aid only; no registered command sets it
+            self._normalise()
+
+    def _normalise(self):
+        """See engine/normalize.py: undo private renames, inline new private helpers, rewrite `a if c else b` statements."""
+        from . import normalize
+        inv = normalize.load_inventory()
+        normalize.desugar_ifexp(self.modules)
+        if inv is not None:
+            normalize.apply_renames(self.modules, normalize.plan_renames(self.modules, inv), self.norm_log)
+        self._index()
+        if inv is not None:
+            for _ in range(3):
+                if not normalize.inline_new_helpers(self, inv, self.norm_log):
+                    break
+                self._index()
+
+    def _index(self):
+        self.classes = {}
+        self.funcs = {}
+        for name, mod in self.modules.items():
+            mod.relink()
+            self._collect(mod, mod.tree.body, name, None)
         self.by_simple: dict[str, list[str]] = {}
         for q in self.classes:
             self.by_simple.setdefault(q.rsplit('.', 1)[1], []).append(q)
@@ -121,7 +151,6 @@ class Repo:
         except SyntaxError as ex:
             raise AnalysisError(f'cannot parse {path}: {ex}') from ex
         self.modules[name] = mod
-        self._collect(mod, mod.tree.body, name, None)
 
     def _collect(self, mod, body, prefix, cls):
         for node in body:
